@@ -584,3 +584,139 @@ fn parse_http(resp: &[u8]) -> Option<HttpResult> {
         needed_runtime: false,
     })
 }
+
+/// The one permitted exception: the randomised id emitted when local styles are requested.
+/// Nothing about its format is assumed: the id is whatever token differs first between the
+/// two outputs, provided that in BOTH it is used as the local-style id - the root element's
+/// `id`, or a `#token {` selector inside the generated <style> block. Every occurrence of it
+/// is then replaced by one placeholder; any other difference remains a difference.
+pub fn mask_local_id_pair(a: &[u8], b: &[u8]) -> (Vec<u8>, Vec<u8>) {
+    if a == b {
+        return (a.to_vec(), b.to_vec());
+    }
+    let n = a.iter().zip(b.iter()).take_while(|(x, y)| x == y).count();
+    let is_tok = |c: u8| c.is_ascii_alphanumeric() || c == b'-' || c == b'_';
+    let token_at = |t: &[u8]| -> Option<String> {
+        let mut lo = n.min(t.len());
+        while lo > 0 && is_tok(t[lo - 1]) {
+            lo -= 1;
+        }
+        let mut hi = n.min(t.len());
+        while hi < t.len() && is_tok(t[hi]) {
+            hi += 1;
+        }
+        if hi - lo >= 6 {
+            String::from_utf8(t[lo..hi].to_vec()).ok()
+        } else {
+            None
+        }
+    };
+    let (Some(ta), Some(tb)) = (token_at(a), token_at(b)) else {
+        return (a.to_vec(), b.to_vec());
+    };
+    let is_local_id = |t: &[u8], tok: &str| -> bool {
+        let text = String::from_utf8_lossy(t);
+        let root = text.find("<svg").map(|p| {
+            let end = text[p..].find('>').map(|e| p + e).unwrap_or(text.len());
+            text[p..end].contains(&format!(" id=\"{tok}\""))
+        });
+        let style = text.find("<style").map(|p| {
+            let end = text[p..].find("</style>").map(|e| p + e).unwrap_or(text.len());
+            let st = &text[p..end];
+            st.contains(&format!("#{tok} {{")) || st.contains(&format!("#{tok}{{"))
+        });
+        root == Some(true) || style == Some(true)
+    };
+    if ta == tb || !is_local_id(a, &ta) || !is_local_id(b, &tb) {
+        return (a.to_vec(), b.to_vec());
+    }
+    let ma = String::from_utf8_lossy(a).replace(&ta, "LOCAL-STYLE-ID").into_bytes();
+    let mb = String::from_utf8_lossy(b).replace(&tb, "LOCAL-STYLE-ID").into_bytes();
+    (ma, mb)
+}
+
+/// Did the document or the configuration ask for local styles (so that the one random token
+/// of the output may differ between two runs)?
+pub fn wants_local_styles(doc: &[u8], cfg: &Cfg) -> bool {
+    cfg.use_local_styles || doc.windows(16).any(|w| w == b"use-local-styles")
+}
+
+/// Equality of two outcomes, up to the local-style id where local styles were requested.
+pub fn same_outcome_modulo_local_id(a: &Outcome, b: &Outcome, local: bool) -> bool {
+    match (a, b) {
+        (Outcome::Ok(x), Outcome::Ok(y)) if local && x != y => {
+            let (mx, my) = mask_local_id_pair(x, y);
+            mx == my
+        }
+        _ => a == b,
+    }
+}
+
+/// `prefix` is a prefix of `whole`, up to the local-style id where local styles were requested
+/// (the id in `prefix` may be another one than in `whole`, and may be cut by the end of `prefix`).
+pub fn is_prefix_modulo_local_id(prefix: &[u8], whole: &[u8], local: bool) -> bool {
+    if whole.starts_with(prefix) {
+        return true;
+    }
+    if !local {
+        return false;
+    }
+    let is_tok = |c: u8| c.is_ascii_alphanumeric() || c == b'-' || c == b'_';
+    let first_diff = |a: &[u8], b: &[u8]| a.iter().zip(b.iter()).take_while(|(x, y)| x == y).count();
+    let n0 = first_diff(prefix, whole);
+    if n0 >= whole.len() {
+        return false; // prefix is longer than the whole output
+    }
+    // the token of `whole` at the first difference must be its local-style id
+    let mut lo = n0;
+    while lo > 0 && is_tok(whole[lo - 1]) {
+        lo -= 1;
+    }
+    let mut hi = n0;
+    while hi < whole.len() && is_tok(whole[hi]) {
+        hi += 1;
+    }
+    let tg = &whole[lo..hi];
+    if tg.len() < 6 {
+        return false;
+    }
+    let (_, probe) = mask_local_id_pair(&[&whole[..lo], b"LOCAL-STYLE-ID-PROBE".as_slice(), &whole[hi..]].concat(), whole);
+    if !probe.windows(14).any(|w| w == b"LOCAL-STYLE-ID") {
+        return false; // that token is not used as the local-style id in `whole`
+    }
+    // the corresponding token of `prefix`
+    let mut phi = lo;
+    while phi < prefix.len() && is_tok(prefix[phi]) {
+        phi += 1;
+    }
+    if phi == prefix.len() {
+        return true; // everything before the id agrees, the id itself is cut by the end
+    }
+    let ta = prefix[lo..phi].to_vec();
+    if ta.len() < 6 {
+        return false;
+    }
+    // put the id of `whole` wherever `prefix` has its own (complete) id
+    let mut p2 = Vec::with_capacity(prefix.len());
+    let mut i = 0;
+    while i < prefix.len() {
+        if prefix[i..].starts_with(&ta) {
+            p2.extend_from_slice(tg);
+            i += ta.len();
+        } else {
+            p2.push(prefix[i]);
+            i += 1;
+        }
+    }
+    if whole.starts_with(&p2) {
+        return true;
+    }
+    // a last, cut occurrence of the id at the very end of `prefix`
+    let n1 = first_diff(&p2, whole);
+    let mut l1 = n1;
+    while l1 > 0 && is_tok(p2[l1 - 1]) {
+        l1 -= 1;
+    }
+    let tail = &p2[l1..];
+    tail.iter().all(|c| is_tok(*c)) && ta.starts_with(tail) && whole[l1..].starts_with(tg)
+}
